@@ -58,7 +58,7 @@ VARIANTS = [
                                      (I, "            c.execute(query2, (_id, _id))", "            c.execute(query2, (_id,))")], "R2"),
     M("C10", "counters-copied", I, 'kwargs["_autoincrements"] = self._autoincrements', 'kwargs["_autoincrements"] = collections.defaultdict(int, self._autoincrements)', "R3"),
     M("C10", "counters-plain-insert", C, "            INSERT OR REPLACE INTO autoincrements VALUES (?, ?)", "            INSERT INTO autoincrements VALUES (?, ?)", "R3"),
-    M("C10", "update-skips-finalize", I, "        # Note that the autoincrements gets updated here\n        db._finalize()\n", "        # Note that the autoincrements gets updated here\n", "R4"),
+    M("C10", "update-skips-finalize", I, "        # Note that the autoincrements gets updated here\n        db._finalize()\n", "        # Note that the autoincrements gets updated here\n", "R3"),
     M("C10", "backup-extra-condition", I, "        from gffutils import iterators\n\n        if make_backup:", "        from gffutils import iterators\n\n        if make_backup and not kwargs:", "R1"),
     M("C10", "add-relation-reversed", I, "            (parent.id, child.id, level),", "            (child.id, parent.id, level),", "R6"),
     M("C10", "backup-wrong-target", I, '        from gffutils import iterators\n\n        if make_backup:\n            if isinstance(self.dbfn, str):\n                shutil.copy2(self.dbfn, self.dbfn + ".bak")',
